@@ -146,7 +146,7 @@ class Deque(Sequence):
         :param value: max length
 
         """
-        self._maxlen = value
+        self._maxlen = float('inf') if value is None else value
         with self._cache.transact(retry=True):
             while len(self._cache) > self._maxlen:
                 self._popleft()
